@@ -377,6 +377,51 @@ func benign(quick bool) []cell {
 			out = append(out, cell{Name: fmt.Sprintf("goname%d_%d", i, k), Class: "goname-disambiguated:" + a + "/" + b, Benign: true, Root: "t.thrift", Files: map[string]string{"t.thrift": defs + uses}})
 		}
 	}
+	// one type name defined in k different included files (and, optionally, in the root
+	// itself), every one of them used in every container position of one file: the helper
+	// names derived from the type name have to be kept apart k ways, not two
+	for _, name := range []string{"Item", "String"} {
+		for _, kind := range []string{"struct", "enum", "typedef", "mixed"} {
+			for k := 2; k <= 5; k++ {
+				for _, rootHas := range []bool{false, true} {
+					files := map[string]string{}
+					var root, uses strings.Builder
+					def := func(kd string) string {
+						switch kd {
+						case "struct":
+							return "struct " + name + " { 1: optional i32 a }\n"
+						case "enum":
+							return "enum " + name + " { A, B }\n"
+						}
+						return "typedef i64 " + name + "\n"
+					}
+					kindOf := func(i int) string {
+						if kind == "mixed" {
+							return []string{"struct", "enum", "typedef"}[i%3]
+						}
+						return kind
+					}
+					id := 1
+					use := func(ref string) {
+						fmt.Fprintf(&uses, "  %d: optional %s f%d; %d: optional list<%s> f%d; %d: optional map<string, %s> f%d; %d: optional set<%s> (go.type = \"slice\") f%d\n", id, ref, id, id+1, ref, id+1, id+2, ref, id+2, id+3, ref, id+3)
+						id += 4
+					}
+					for i := 1; i <= k; i++ {
+						fn := fmt.Sprintf("m%d", i)
+						files[fn+".thrift"] = def(kindOf(i))
+						fmt.Fprintf(&root, "include \"./%s.thrift\"\n", fn)
+						use(fn + "." + name)
+					}
+					if rootHas {
+						root.WriteString(def(kindOf(0)))
+						use(name)
+					}
+					files["t.thrift"] = root.String() + "struct Uses {\n" + uses.String() + "}\n"
+					out = append(out, cell{Name: fmt.Sprintf("samename_%s_%s_%d_%v", strings.ToLower(name), kind, k, rootHas), Class: "same-name-from-k-includes:" + kind, Benign: true, Root: "t.thrift", Files: files})
+				}
+			}
+		}
+	}
 	out = append(out, cell{Name: "lay_cyclic_includes", Class: "layout:cyclic-includes", Benign: false, Root: "a.thrift",
 		Files: map[string]string{"a.thrift": "include \"./b.thrift\"\nstruct A { 1: optional b.B b }", "b.thrift": "include \"./a.thrift\"\nstruct B { 1: optional i32 v }"}})
 	return out
